@@ -107,6 +107,14 @@ func (s *Store) ProposeMerge(targetRegionID, sourceRegionID uint64) error {
 	if status := peer.Status(); status.RaftState != myraft.StateLeader {
 		return fmt.Errorf("raftstore: peer %d is not leader", peer.ID())
 	}
+	// Reject a merge of non-adjacent regions before it enters the raft log.
+	if targetMeta, ok := s.RegionMetaByID(targetRegionID); ok {
+		if sourceMeta, ok := s.RegionMetaByID(sourceRegionID); ok {
+			if _, _, err := mergedRange(targetMeta, sourceMeta); err != nil {
+				return err
+			}
+		}
+	}
 	cmd := &pb.AdminCommand{
 		Type: pb.AdminCommand_MERGE,
 		Merge: &pb.MergeCommand{
@@ -181,11 +189,14 @@ func (s *Store) handleMergeCommand(merge *pb.MergeCommand) error {
 	if !ok {
 		return fmt.Errorf("raftstore: source region %d not found", merge.GetSourceRegionId())
 	}
+	start, end, err := mergedRange(parentMeta, sourceMeta)
+	if err != nil {
+		return err
+	}
 	updated := parentMeta
 	updated.Epoch.Version++
-	if len(sourceMeta.EndKey) == 0 || bytes.Compare(sourceMeta.EndKey, updated.EndKey) > 0 {
-		updated.EndKey = append([]byte(nil), sourceMeta.EndKey...)
-	}
+	updated.StartKey = start
+	updated.EndKey = end
 	if err := s.UpdateRegion(updated); err != nil {
 		return err
 	}
@@ -196,6 +207,21 @@ func (s *Store) handleMergeCommand(merge *pb.MergeCommand) error {
 		return err
 	}
 	return nil
+}
+
+// mergedRange returns the key range of target after absorbing source. The source
+// must be the right neighbour (target end == source start) or the left neighbour
+// (source end == target start) of the target; an empty end key is unbounded and
+// has no right neighbour.
+func mergedRange(target, source manifest.RegionMeta) (start, end []byte, err error) {
+	switch {
+	case len(target.EndKey) > 0 && bytes.Equal(target.EndKey, source.StartKey):
+		return append([]byte(nil), target.StartKey...), append([]byte(nil), source.EndKey...), nil
+	case len(source.EndKey) > 0 && bytes.Equal(source.EndKey, target.StartKey):
+		return append([]byte(nil), source.StartKey...), append([]byte(nil), target.EndKey...), nil
+	default:
+		return nil, nil, fmt.Errorf("raftstore: region %d is not adjacent to merge target %d", source.ID, target.ID)
+	}
 }
 
 func regionMetaToPB(meta manifest.RegionMeta) *pb.RegionMeta {
